@@ -221,4 +221,29 @@ example : Spec.C19.holds
 example : Spec.C19.holds { caps := [], calls := [.flush], returned := [false], logs := [] } = some "empty-accepts-all" := by
   decide
 
+/-- **the capabilities follow the children**: the multi reporter keeps no copy of its children's answers — after
+the children's capabilities changed (in any state, after any history) `Capabilities()` is the conjunction of the
+NEW answers. -/
+theorem capabilities_follow_children (st : State) (caps : List Caps) (h : caps.length = st.children.length) :
+    capabilities (setCaps st caps) = Spec.C19.conj caps := by
+  rw [capabilities_eq_conj]
+  congr 1
+  simp only [setCaps]
+  have hd : st.children.drop caps.length = [] := by rw [h]; exact List.drop_length
+  have hf : ((fun c : Child => c.caps) ∘ fun p : Child × Caps => { p.1 with caps := p.2 }) = Prod.snd := by
+    funext p; rfl
+  rw [hd, List.append_nil, List.map_map, hf]
+  exact List.map_snd_zip (by omega)
+
+/-- changing the children's capabilities changes nothing else: the children's logs stay -/
+theorem setCaps_keeps_logs (st : State) (caps : List Caps) (h : caps.length = st.children.length) :
+    logs (setCaps st caps) = logs st := by
+  simp only [logs, setCaps]
+  have hd : st.children.drop caps.length = [] := by rw [h]; exact List.drop_length
+  have hf : ((fun c : Child => c.log) ∘ fun p : Child × Caps => { p.1 with caps := p.2 }) =
+      (fun c : Child => c.log) ∘ Prod.fst := by
+    funext p; rfl
+  rw [hd, List.append_nil, List.map_map, hf, ← List.map_map]
+  rw [List.map_fst_zip (by omega)]
+
 end Tally.Props.C19
